@@ -355,16 +355,42 @@ def sle_rules(ctx, d1):
         d1.ok('SLE._update_solubility', 'three-way clamp: x<0 -> none dissolved, x>=x_max -> all dissolved, else F*x/(1-x)', f)
     else:
         d1.fail('SLE._update_solubility', 'clamp', 'solubility is not clamped into [0, x_max] (%s)' % seen, f, f.node)
-    # x_max definition: all solute dissolved <=> x = mol_solute/(F_liquid + mol_solute)
+    # x_max is the root of "solid = 0": with liquid = A*x/(1-x) and solid = N - liquid, solid >= 0  <=>  x <= N/(A + N).
+    # Any other bound either dissolves more than is present (negative solid) or keeps solute solid that would dissolve.
     xm = None
+    mid = None
+    xp = f.params[1]
     for p in ps:
         for t, taken in p.conds:
             if not isinstance(t, str) and isinstance(t, ast.Compare) and isinstance(t.ops[0], ast.GtE) and isinstance(t.comparators[0], ast.Name):
                 xm = p.lin.env.get(t.comparators[0].id)
-    if xm is not None and 'self._mol_solute' in xm.atoms() and any('self._liquid_mol' in a for a in xm.atoms()):
-        d1.ok('SLE._update_solubility', 'x_max = mol_solute/(F_liquid_without_solute + mol_solute)', f)
+        neg = cmp_outcome(p, xp, (ast.Lt,), 0)
+        big = implied(p.conds, lambda e: isinstance(e, ast.Compare) and len(e.ops) == 1 and isinstance(e.ops[0], ast.GtE)
+                      and src(e.left) == xp and isinstance(e.comparators[0], ast.Name))
+        liq = [e for e in p.events if e.kind == 'store' and e.target.startswith('self._liquid_mol[')]
+        if neg is False and big is False and liq:
+            mid = liq[-1].value
+    N = Form.atom('self._mol_solute')
+    A = None
+    if mid is not None:
+        one_minus = '(%s)' % (Form.const(1) - Form.atom(xp)).pretty()
+        A = Form.const(0)
+        for k, c in mid.t.items():
+            d = dict(k)
+            if d.get(xp) != 1 or d.get(one_minus) != -1:
+                A = None
+                break
+            A = A + Form({tuple(sorted((a, e) for a, e in d.items() if a not in (xp, one_minus))): c})
+    if xm is None or A is None:
+        d1.fail('SLE._update_solubility', 'x_max', 'clamp bound / dissolved amount A*x/(1-x) not recognised (bound %s, amount %s)'
+                % (xm.pretty() if xm is not None else None, mid.pretty() if mid is not None else None), f, f.node)
     else:
-        d1.fail('SLE._update_solubility', 'x_max', 'x_max is not derived from the solute total', f, f.node)
+        want = N * Form({((('(%s)' % (A + N).pretty()), -1),): 1})
+        if xm == want:
+            d1.ok('SLE._update_solubility', 'x_max = N/(A + N) with liquid = A*x/(1-x): exactly the solubility at which the solid vanishes', f)
+        else:
+            d1.fail('SLE._update_solubility', 'x_max', 'the clamp bound is %s but the dissolved amount is (%s)*x/(1-x): the solid stays non-negative only for x <= %s'
+                    % (xm.pretty(), A.pretty(), want.pretty()), f, f.node)
 
 
 LSIDE = re.compile(r"^self\._imol\['([lL])'\](?:\[(.+)\])?$")
